@@ -717,6 +717,7 @@ def state_erasure(repo: Repo, chk: Check) -> None:
                "no re-creation of the op drops its state-typed results")
     # results mapping: None exactly for state-typed results
     mapping = False
+    in_order = None
     for n in ast.walk(mr.node):
         if isinstance(n, (ast.ListComp, ast.GeneratorExp)) and isinstance(n.elt, ast.IfExp) and len(n.generators) == 1 and norm.contains(n.generators[0].iter, T("$o.results")):
             t, a, b = norm.canon(n.elt.test), n.elt.body, n.elt.orelse
@@ -726,8 +727,23 @@ def state_erasure(repo: Repo, chk: Check) -> None:
             none_b = isinstance(b, ast.Constant) and b.value is None
             if (pos and none_a and not none_b) or (neg and none_b and not none_a):
                 mapping = True
+                keep = b if none_a else a
+                # the surviving results are taken front to back (the new op keeps their relative order)
+                m0 = norm.any_match(["$l.pop(0)", "next($l)"], keep)
+                mrev = norm.match(T("$l.pop()"), keep)
+                if m0 is not None:
+                    in_order = True
+                elif mrev is not None and isinstance(mrev["l"], ast.Name):
+                    defs = [d for st in ast.walk(mr.node) if isinstance(st, ast.Assign) and any(isinstance(t, ast.Name) and t.id == mrev["l"].id for t in st.targets) for d in [st.value]]
+                    in_order = any("reversed(" in ast.unparse(d) or "[::-1]" in ast.unparse(d) for d in defs)
+                else:
+                    in_order = None
     chk.result(mapping, "C04.state-erasure", f"{key}:result-mapping", mr.where, "old results map to None exactly when they are of state type",
                "the old-result -> new-result mapping does not erase exactly the state-typed results")
+    if mapping and in_order is not None:
+        chk.result(bool(in_order), "C04.state-erasure", f"{key}:result-order", mr.where, "surviving results are mapped to the new op's results front to back",
+                   "surviving results are taken from the END of the new op's result list: with two or more non-state results next to a state they are exchanged "
+                   "(same-typed values reach the wrong users silently)")
     # block arguments
     fl = Flow(mr, repo)
     er = fl.calls("erase_block_argument")
